@@ -46,6 +46,8 @@ type vfEnt struct {
 	likes  []string
 	shares []string
 	likesK string // "" (absent) | Collection | OrderedCollection
+	actor  string   // Follow: its actor
+	object string   // Follow: its object
 }
 
 type vfHeldLock struct{ id, req string }
@@ -252,6 +254,18 @@ func (w *vfCW) load(id string) vocab.Type {
 	switch e.kind {
 	case "Collection", "OrderedCollection":
 		return vfColOf(e.kind, id, e.items)
+	case "Follow":
+		f := streams.NewActivityStreamsFollow()
+		idp := streams.NewJSONLDIdProperty()
+		idp.Set(vfMustURL(id))
+		f.SetJSONLDId(idp)
+		ap := streams.NewActivityStreamsActorProperty()
+		ap.AppendIRI(vfMustURL(e.actor))
+		f.SetActivityStreamsActor(ap)
+		op := streams.NewActivityStreamsObjectProperty()
+		op.AppendIRI(vfMustURL(e.object))
+		f.SetActivityStreamsObject(op)
+		return f
 	case "Person":
 		pn := streams.NewActivityStreamsPerson()
 		idp := streams.NewJSONLDIdProperty()
@@ -450,6 +464,7 @@ func (a *vfCApp) FederatingCallbacks(c context.Context) (FederatingWrappedCallba
 	wr.OnFollow = a.w.onFollow
 	wr.Create = func(c context.Context, x vocab.ActivityStreamsCreate) error { return a.cb(c, "Create", x) }
 	wr.Follow = func(c context.Context, x vocab.ActivityStreamsFollow) error { return a.cb(c, "Follow", x) }
+	wr.Accept = func(c context.Context, x vocab.ActivityStreamsAccept) error { return a.cb(c, "Accept", x) }
 	wr.Add = func(c context.Context, x vocab.ActivityStreamsAdd) error { return a.cb(c, "Add", x) }
 	wr.Remove = func(c context.Context, x vocab.ActivityStreamsRemove) error { return a.cb(c, "Remove", x) }
 	wr.Like = func(c context.Context, x vocab.ActivityStreamsLike) error { return a.cb(c, "Like", x) }
@@ -869,6 +884,29 @@ func VfC08_Follows() {
 		return vfDoc("Follow", "id", id, "actor", peer, "object", actor)
 	}
 	vfC08Pair(mkw, &vfCReq{name: "r1", body: mk(a1, p1)}, &vfCReq{name: "r2", body: mk(a2, p2)})
+}
+
+// two Accepts, by two peers, of two Follows this actor sent (stored): the actor's following collection
+func VfC08_Accepts() {
+	base := vfC08Base()
+	a1, a2 := vfIRI("act"), vfIRI("act")
+	f1, f2 := vfIRI("follow"), vfIRI("follow")
+	p1, p2 := vfIRI("peer"), vfIRI("peer")
+	vfDistinct([]string{a1, a2})
+	vfDistinct([]string{f1, f2})
+	vfRoles([]string{a1, a2}, []string{f1, f2}, []string{p1, p2})
+	me := vfC08Actor
+	mkw := func(name string) *vfCW {
+		w := base(name)
+		w.put(f1, &vfEnt{kind: "Follow", actor: me, object: p1})
+		w.put(f2, &vfEnt{kind: "Follow", actor: me, object: p2})
+		return w
+	}
+	mk := func(id, peer, follow string) map[string]interface{} {
+		return vfDoc("Accept", "id", id, "actor", peer,
+			"object", map[string]interface{}{"type": "Follow", "id": follow, "actor": me, "object": peer})
+	}
+	vfC08Pair(mkw, &vfCReq{name: "r1", body: mk(a1, p1, f1)}, &vfCReq{name: "r2", body: mk(a2, p2, f2)})
 }
 
 // two Adds, each to 1..2 targets; the targets are free to alias two owned collections in any order
